@@ -1324,6 +1324,10 @@ def is_protocol_implementation(
             if IS_CLASS_OR_STATIC in superflags and IS_CLASS_OR_STATIC not in subflags:
                 return False
 
+    if class_obj or any(member in right.type.protocol_members for member in skip):
+        # The subtype cache answers "is an instance of left a subtype of right?". Here we
+        # answered a different question (about the class object, or ignoring some members).
+        return True
     if not proper_subtype:
         # Nominal check currently ignores arg names, but __call__ is special for protocols
         ignore_names = right.type.protocol_members != ["__call__"]
